@@ -312,3 +312,11 @@ Section Default.
     apply veq_app; apply rebuilt_view; auto.
   Qed.
 End Default.
+
+Theorem remove_edges_count rt s t :
+  wf t = true ->
+  length (branches (remove_edges true rt (fun _ e c => s e c) t)) = length (filter (stays s) (branches t)).
+Proof.
+  intros Hw. generalize (remove_edges_exact rt s t Hw). intros H.
+  apply PermR_length in H. now rewrite !map_length in H.
+Qed.
